@@ -8,6 +8,13 @@ def run(m, tier):
     results.append(engine_tables.word_cls_rule(m, "C01.R9"))
     from rules import taint_rules
     results.append(taint_rules.dead_pieces_rule(m, "C01.R4"))
+    from rules import order_rules, C08
+    results.append(order_rules.shadow_before_raise(m, "C01.R10"))
+    r4 = C08.r4_opener_index(m)
+    r4.rule = "C01.R11"
+    for f in r4.findings:
+        f.rule = "C01.R11"
+    results.append(r4)
     from rules import C02
     for fn, rid in ((C02.r2_replace_map, "C01.R5"), (C02.r6_inverse_map, "C01.R6"), (C02.r7_restore_order, "C01.R7")):
         rr_ = fn(m)
